@@ -266,3 +266,121 @@ func noResize(mode int) map[int]bool {
 	}
 	return nil
 }
+
+// ---------------------------------------------------------------- concurrency specs
+
+var parOps = []int{0, 1, 2, 3, 4, 5, 6, 7} // Load Store LoadOrStore LoadAndStore LoadOrCompute Compute LoadAndDelete Delete
+
+func parCfg(rounds int) eng.Config {
+	return eng.Config{DefaultUnwind: 2, Rounds: rounds, NoResize: map[int]bool{0: true, 1: true}}
+}
+
+func mapPar2(prefix, fn string, pairs [][2]int, extra []int64, rounds int) []eng.Instance {
+	var is []eng.Instance
+	for _, p := range pairs {
+		args := append([]int64{int64(p[0]), int64(p[1])}, extra...)
+		is = append(is, eng.Instance{Name: fmt.Sprintf("%s/%s||%s", prefix, mapOps[p[0]], mapOps[p[1]]), Pkg: "xsync", Func: fn, Args: args, Cfg: parCfg(rounds)})
+	}
+	return is
+}
+
+func allPairs(ops []int) [][2]int {
+	var ps [][2]int
+	for i, a := range ops {
+		for _, b := range ops[i:] {
+			ps = append(ps, [2]int{a, b})
+		}
+	}
+	return ps
+}
+
+func init() {
+	quickPairs := [][2]int{{0, 1}, {0, 5}, {0, 7}, {1, 1}, {1, 7}, {2, 7}, {3, 3}, {3, 6}, {5, 6}, {6, 6}, {6, 1}, {7, 7}}
+	register(&PropSpec{
+		ID:        "C03",
+		Technique: "context-bounded symbolic scheduling: both goroutines' go/ssa code executed symbolically in rounds whose boundaries are free bit-vector variables (one SMT query = all interleavings within the bound); linearizability oracle vs reference map; schedules replayed natively under a cooperative scheduler",
+		Bounds:    map[string]interface{}{"threads": 2, "ops_per_thread": "1 (A||B) and 1||2 (A || B1;B2)", "rounds": 2, "table": "1 root bucket, chain 1, <=1 pre-state entry", "resize": "executions requesting grow/shrink are outside these instances; Clear pairs separately", "unwind": 2},
+		Stubs:     commonStubs,
+		Outside:   []string{"more than 2 goroutines", "more than 3 context switches (2 rounds)", "grow/shrink overlapping the calls (see DESIGN.md: formula size)", "tables with more than 1 root bucket in concurrent instances"},
+		Quick: func() []eng.Instance {
+			is := mapPar2("C03/Map/par2", "VxH_Map_par2", quickPairs, []int64{1, 1, 1, 1}, 2)
+			is = append(is,
+				eng.Instance{Name: "C03/Map/par12/Load||Delete;Store", Pkg: "xsync", Func: "VxH_Map_par12", Args: []int64{0, 7, 1, 1, 1, 1, 1}, Cfg: parCfg(2)},
+				eng.Instance{Name: "C03/Map/par12/Load||Store;Delete", Pkg: "xsync", Func: "VxH_Map_par12", Args: []int64{0, 1, 7, 1, 1, 1, 1}, Cfg: parCfg(2)},
+			)
+			return is
+		},
+		Thorough: func() []eng.Instance {
+			is := mapPar2("C03/Map/par2", "VxH_Map_par2", allPairs(parOps), []int64{1, 1, 1, 1}, 2)
+			is = append(is, mapPar2("C03/Map/par2+Clear", "VxH_Map_par2", [][2]int{{8, 0}, {8, 1}, {8, 7}, {8, 8}}, []int64{1, 1, 1, 1}, 2)...)
+			for _, t := range [][3]int{{0, 7, 1}, {0, 1, 7}, {0, 1, 1}, {2, 7, 1}, {6, 1, 7}} {
+				is = append(is, eng.Instance{Name: fmt.Sprintf("C03/Map/par12/%s||%s;%s", mapOps[t[0]], mapOps[t[1]], mapOps[t[2]]), Pkg: "xsync", Func: "VxH_Map_par12",
+					Args: []int64{int64(t[0]), int64(t[1]), int64(t[2]), 1, 1, 1, 1}, Cfg: parCfg(2)})
+			}
+			return is
+		},
+	})
+	register(&PropSpec{
+		ID:        "C04",
+		Technique: "context-bounded symbolic scheduling (as C03) on MapOf[int,int] with an arbitrary (uninterpreted) hasher: bucket-index and h2 collisions are inside the quantifier",
+		Bounds:    map[string]interface{}{"threads": 2, "ops_per_thread": "1 and 1||2", "rounds": 2, "table": "1 root bucket, 2 symbolic slots, <=1 pre-state entry", "unwind": 2},
+		Stubs:     commonStubs,
+		Outside:   []string{"as C03"},
+		Quick: func() []eng.Instance {
+			is := mapPar2("C04/MapOf/par2", "VxH_MapOf_par2", quickPairs, []int64{1, 1, 1, 1, 2}, 2)
+			is = append(is, eng.Instance{Name: "C04/MapOf/par12/Load||Delete;Store", Pkg: "xsync", Func: "VxH_MapOf_par12", Args: []int64{0, 7, 1, 1, 1, 1, 1, 2}, Cfg: parCfg(2)})
+			return is
+		},
+		Thorough: func() []eng.Instance {
+			is := mapPar2("C04/MapOf/par2", "VxH_MapOf_par2", allPairs(parOps), []int64{1, 1, 1, 1, 2}, 2)
+			is = append(is, mapPar2("C04/MapOf/par2+Clear", "VxH_MapOf_par2", [][2]int{{8, 0}, {8, 1}, {8, 7}, {8, 8}}, []int64{1, 1, 1, 1, 2}, 2)...)
+			return is
+		},
+	})
+}
+
+func cachePar2(prefix string, pairs [][2]string, sameKey int) []eng.Instance {
+	idx := func(n string) int64 {
+		for i, c := range cacheOps {
+			if c == n {
+				return int64(i)
+			}
+		}
+		panic(n)
+	}
+	var is []eng.Instance
+	for _, p := range pairs {
+		is = append(is, eng.Instance{Name: fmt.Sprintf("%s/%s||%s", prefix, p[0], p[1]), Pkg: "cache", Func: "VxH_C02_par2",
+			Args: []int64{idx(p[0]), idx(p[1]), int64(sameKey), 1}, Cfg: eng.Config{DefaultUnwind: 4, Rounds: 3}})
+	}
+	return is
+}
+
+func init() {
+	register(&PropSpec{
+		ID:        "C02",
+		Technique: "context-bounded symbolic scheduling of two Cache/CacheOf calls on the real stack (cache layer + real xsync map, frozen symbolic clock, entries live/expired/absent); linearizability oracle vs the TTL-map reference",
+		Bounds:    map[string]interface{}{"threads": 2, "ops_per_thread": 1, "rounds": 2, "table": "1 root bucket", "pre_state_entries": 1},
+		Stubs:     commonStubs,
+		Outside:   []string{"more than 2 goroutines / 1 call each", "more than 3 context switches", "clock advancing during the concurrent phase", "table resizes during the calls"},
+		Quick: func() []eng.Instance {
+			return withOf(cachePar2("C02/Cache/par2", [][2]string{
+				{"DeleteExpired", "Set"}, {"DeleteExpired", "GetAndSet"}, {"DeleteExpired", "GetOrSet"}, {"Get", "Set"}, {"Get", "GetAndSet"},
+				{"GetAndRefresh", "Delete"}, {"GetAndRefresh", "Set"}, {"Set", "Set"}, {"GetOrSet", "Delete"}, {"Compute", "GetAndDelete"},
+			}, 0))
+		},
+	})
+	register(&PropSpec{
+		ID:        "C05",
+		Technique: "context-bounded symbolic scheduling of two racers on ONE key (map level and cache level) with ghost counters in the user functions; oracle: results, loaded flags and call counts are those of a sequential order",
+		Bounds:    map[string]interface{}{"racers": 2, "rounds": 2, "key": "absent, live or expired-uncleaned"},
+		Stubs:     commonStubs,
+		Outside:   []string{"more than 2 racers", "a grow between a caller's first attempt and its retry (sequentially covered by C11 steps with grow inside)"},
+		Quick: func() []eng.Instance {
+			is := mapPar2("C05/Map/race", "VxH_Map_par2", [][2]int{{2, 2}, {4, 4}, {5, 5}, {3, 3}, {4, 2}}, []int64{1, 1, 1, 11}, 2)
+			is = append(is, mapPar2("C05/MapOf/race", "VxH_MapOf_par2", [][2]int{{2, 2}, {4, 4}, {5, 5}}, []int64{1, 1, 1, 11, 2}, 2)...)
+			is = append(is, withOf(cachePar2("C05/Cache/race", [][2]string{{"GetOrCompute", "GetOrCompute"}, {"GetOrSet", "GetOrSet"}, {"Compute", "Compute"}, {"GetAndSet", "GetAndRefresh"}}, 1))...)
+			return is
+		},
+	})
+}
